@@ -1,6 +1,485 @@
 package world
 
-import "github.com/nyaruka/goflow/flows"
+import (
+	"encoding/json"
+	"fmt"
+	"strings"
 
-func (w *World) forkAtWait(c *ContactState, rec *SessionRec, s flows.Session, sa *SA, restored bool) {
+	"gfverif/gen"
+
+	"github.com/nyaruka/gocommon/jsonx"
+	"github.com/nyaruka/goflow/assets"
+	"github.com/nyaruka/goflow/flows"
+	"github.com/nyaruka/goflow/flows/engine"
+)
+
+// C10: at every wait reached the host forks the persisted session (it is just JSON) and
+// enumerates one-step futures: every resume type x {live object, restored copy} x asset
+// variants x resume limit below/at, plus resumes against ended sessions. Every fork
+// runs under a seam snapshot that is restored afterwards, so the main line is unaffected.
+
+var resumeTypes = []string{"msg", "wait_timeout", "run_expiration", "dial"}
+
+func (w *World) forkSpec(typ string) *ResumeSpec {
+	w.msgSerial++
+	return &ResumeSpec{Type: typ, Text: "fork probe", Dial: "answered", DialSecs: 7, Carry: false, MsgSerial: 900000 + w.msgSerial}
 }
+
+type forkOutcome struct {
+	o        *Outcome
+	err      error
+	rejected bool
+	code     int
+	after    string
+}
+
+// tryResume resumes session s with a resume of the given type under the current seams.
+func (w *World) tryResume(c *ContactState, s flows.Session, sa *SA, spec *ResumeSpec) (*forkOutcome, bool) {
+	r, _, err := w.buildResume(spec, c, sa)
+	if err != nil {
+		return nil, false
+	}
+	var sp flows.Sprint
+	var cerr error
+	p := guarded(func() { sp, cerr = s.Resume(r) })
+	fo := &forkOutcome{o: observe(s, sp, cerr, p), err: cerr}
+	if ee, ok := cerr.(*engine.Error); ok {
+		fo.rejected = true
+		fo.code = ee.Code()
+	}
+	fo.after = fo.o.Session
+	return fo, true
+}
+
+func countWaits(sessionJSON []byte) int {
+	var s struct {
+		Runs []struct {
+			Events []struct {
+				Type string `json:"type"`
+			} `json:"events"`
+		} `json:"runs"`
+	}
+	json.Unmarshal(sessionJSON, &s)
+	n := 0
+	for _, r := range s.Runs {
+		for _, e := range r.Events {
+			if strings.HasSuffix(e.Type, "_wait") {
+				n++
+			}
+		}
+	}
+	return n
+}
+
+func (w *World) forkAtWait(c *ContactState, rec *SessionRec, live flows.Session, sa *SA, restored bool) {
+	if rec.Status != "waiting" {
+		w.forkEnded(c, rec, sa)
+		return
+	}
+	v := func(oracle, fp, msg string) { w.Violate("C10", oracle, "C10."+fp, msg) }
+	before := string(rec.JSON)
+	snap := w.Seams.Snapshot()
+	transient := w.Store.TransientErr
+	var recSaved []TestCall
+	if w.rec != nil {
+		recSaved = w.rec.take()
+	}
+	defer func() {
+		w.Seams.Restore(snap)
+		w.Store.TransientErr = transient
+		if w.rec != nil {
+			w.rec.take()
+			w.rec.calls = recSaved
+		}
+	}()
+	w.probe("c10_forks")
+
+	read := func(sax *SA) (flows.Session, error, string) {
+		var s flows.Session
+		var err error
+		p := guarded(func() { s, err = w.Eng.ReadSession(sax, rec.JSON, assets.IgnoreMissing) })
+		return s, err, p
+	}
+
+	// --- A. every resume type against unchanged assets
+	// pass 1: which types does this wait accept?
+	acceptedType := ""
+	type first struct {
+		typ string
+		fo  *forkOutcome
+		s2  flows.Session
+		sa2 *SA
+	}
+	var firsts []first
+	for _, typ := range resumeTypes {
+		if w.stopped {
+			return
+		}
+		w.Seams.Restore(snap)
+		sa2, err := w.freshSA(sa)
+		if err != nil {
+			return
+		}
+		s2, err, p := read(sa2)
+		if p != "" || err != nil {
+			return // unreadable under unchanged assets is C02's subject
+		}
+		fo, ok := w.tryResume(c, s2, sa2, w.forkSpec(typ))
+		if !ok {
+			continue
+		}
+		w.probe("c10_fork_resume_" + typ)
+		if fo.o.Panic != "" {
+			v("no-panic", "panic/unchanged/"+typ+"/"+panicSite(fo.o.Panic), fmt.Sprintf("resume %s panics: %s", typ, clip(fo.o.Panic, 2000)))
+			return
+		}
+		if !fo.rejected && fo.err == nil && acceptedType == "" {
+			acceptedType = typ
+		}
+		firsts = append(firsts, first{typ, fo, s2, sa2})
+	}
+	// pass 2: the rejected ones
+	for _, f := range firsts {
+		typ, fo, s2, sa2 := f.typ, f.fo, f.s2, f.sa2
+		if !fo.rejected {
+			continue
+		}
+		if w.stopped {
+			return
+		}
+		w.probe(fmt.Sprintf("c10_rejected_code_%d", fo.code))
+		// rejected: the session is left exactly as it was
+		if fo.after != before {
+			v("rejected-untouched", fmt.Sprintf("rejected-mutated/%s/code%d/%s", typ, fo.code, jsonPathOfDiff([]byte(before), []byte(fo.after))),
+				fmt.Sprintf("resume %s was rejected (code %d: %v) but the session JSON changed: %s", typ, fo.code, fo.err, firstDiff(before, fo.after)))
+			return
+		}
+		if len(fo.o.Events) > 0 {
+			v("rejected-untouched", fmt.Sprintf("rejected-with-events/%s/code%d", typ, fo.code), fmt.Sprintf("resume %s was rejected (code %d) but the sprint carries events [%s]", typ, fo.code, eventTypes(fo.o.Events)))
+			return
+		}
+		// the live object too
+		if !restored && live != nil {
+			w.Seams.Restore(snap)
+			lo, ok := w.tryResume(c, live, sa, w.forkSpec(typ))
+			if ok {
+				if lo.o.Panic != "" {
+					v("no-panic", "panic/live/"+typ+"/"+panicSite(lo.o.Panic), fmt.Sprintf("resume %s on the live object panics: %s", typ, clip(lo.o.Panic, 2000)))
+					return
+				}
+				if !lo.rejected {
+					v("rejected-untouched", "live-accepts-what-restored-rejects/"+typ, fmt.Sprintf("resume %s is rejected by the restored session (code %d) but not by the live object (err=%v)", typ, fo.code, lo.err))
+					return
+				}
+				if lo.after != before {
+					v("rejected-untouched", fmt.Sprintf("rejected-mutated-live/%s/code%d/%s", typ, lo.code, jsonPathOfDiff([]byte(before), []byte(lo.after))),
+						fmt.Sprintf("resume %s was rejected by the live session object (code %d) but its JSON changed: %s", typ, lo.code, firstDiff(before, lo.after)))
+					return
+				}
+				w.probe("c10_rejected_on_live_checked")
+			}
+		}
+		// a following legitimate resume behaves exactly as if the rejected one had never been sent
+		if acceptedType != "" {
+			follow := acceptedType
+			w.Seams.Restore(snap)
+			a, okA := w.tryResume(c, s2, sa2, w.forkSpecFixed(follow))
+			w.Seams.Restore(snap)
+			sa3, err := w.freshSA(sa)
+			if err != nil {
+				return
+			}
+			s3, err, p := read(sa3)
+			if err != nil || p != "" {
+				return
+			}
+			b, okB := w.tryResume(c, s3, sa3, w.forkSpecFixed(follow))
+			if okA && okB {
+				if d := a.o.Diff(b.o); d != "" {
+					v("rejected-untouched", fmt.Sprintf("rejected-affects-next/%s-then-%s/%s", typ, follow, diffClass(a.o, b.o)),
+						fmt.Sprintf("after the rejected resume %s, the resume %s behaves differently from the same resume on a session that never saw the rejected one (after-rejection vs pristine): %s", typ, follow, d))
+					return
+				}
+				w.probe("c10_follow_up_compared")
+			}
+		}
+	}
+
+	// --- B. asset faults between sprints x resume types
+	wf, pf, nodeUUID := waitingLocation(rec.JSON)
+	type variant struct {
+		name       string
+		impossible bool
+		mutate     func(doc gen.J, fl []*storedFlow) []*storedFlow
+		transient  int
+	}
+	editFlow := func(target string, fn func(def gen.J)) func(doc gen.J, fl []*storedFlow) []*storedFlow {
+		return func(doc gen.J, fl []*storedFlow) []*storedFlow {
+			for _, f := range fl {
+				if string(f.uuid) != target {
+					continue
+				}
+				var def gen.J
+				if json.Unmarshal(f.def, &def) != nil {
+					continue
+				}
+				fn(def)
+				f.def, _ = json.Marshal(def)
+			}
+			return fl
+		}
+	}
+	del := func(target string) func(doc gen.J, fl []*storedFlow) []*storedFlow {
+		return func(doc gen.J, fl []*storedFlow) []*storedFlow {
+			for _, f := range fl {
+				if string(f.uuid) == target {
+					f.deleted = true
+				}
+			}
+			return fl
+		}
+	}
+	variants := []variant{
+		{name: "waiting_flow_deleted", impossible: true, mutate: del(wf)},
+		{name: "waiting_node_removed", impossible: true, mutate: editFlow(wf, func(def gen.J) {
+			nodes, _ := def["nodes"].([]any)
+			var keep []any
+			for _, n := range nodes {
+				if n.(gen.J)["uuid"] != nodeUUID {
+					keep = append(keep, n)
+				}
+			}
+			for _, n := range keep {
+				exits, _ := n.(gen.J)["exits"].([]any)
+				for _, ex := range exits {
+					if ex.(gen.J)["destination_uuid"] == nodeUUID {
+						delete(ex.(gen.J), "destination_uuid")
+					}
+				}
+			}
+			if keep == nil {
+				keep = []any{}
+			}
+			def["nodes"] = keep
+		})},
+		{name: "wait_removed_from_node", impossible: true, mutate: editFlow(wf, func(def gen.J) {
+			nodes, _ := def["nodes"].([]any)
+			for _, n := range nodes {
+				if n.(gen.J)["uuid"] == nodeUUID {
+					if r, _ := n.(gen.J)["router"].(gen.J); r != nil {
+						delete(r, "wait")
+					}
+				}
+			}
+		})},
+		{name: "router_removed_from_node", impossible: true, mutate: editFlow(wf, func(def gen.J) {
+			nodes, _ := def["nodes"].([]any)
+			for _, n := range nodes {
+				if n.(gen.J)["uuid"] == nodeUUID {
+					delete(n.(gen.J), "router")
+					if exits, _ := n.(gen.J)["exits"].([]any); len(exits) > 1 {
+						n.(gen.J)["exits"] = exits[:1]
+					}
+				}
+			}
+		})},
+		{name: "flow_type_changed", mutate: editFlow(wf, func(def gen.J) {
+			if def["type"] == "messaging_background" {
+				def["type"] = "messaging"
+			} else {
+				def["type"] = "messaging_background"
+			}
+		})},
+		{name: "definition_unreadable", mutate: func(doc gen.J, fl []*storedFlow) []*storedFlow {
+			for _, f := range fl {
+				if string(f.uuid) == wf {
+					f.def = f.def[:len(f.def)/2]
+				}
+			}
+			return fl
+		}},
+		{name: "transient_source_error", mutate: func(doc gen.J, fl []*storedFlow) []*storedFlow { return fl }, transient: 1},
+	}
+	if pf != "" && pf != wf {
+		variants = append(variants, variant{name: "parent_flow_deleted", mutate: del(pf)})
+	}
+	for _, vr := range variants {
+		if w.stopped {
+			return
+		}
+		det, err := w.Store.Detached(sa.Ver, vr.mutate)
+		if err != nil {
+			continue
+		}
+		for _, typ := range resumeTypes {
+			if w.stopped {
+				return
+			}
+			w.Seams.Restore(snap)
+			w.Store.TransientErr = vr.transient
+			sax, err := w.Store.NewSADetached(w.Env, det, sa.Ver)
+			if err != nil {
+				continue
+			}
+			s2, rerr, p := read(sax)
+			w.probe("c10_fork_variant_" + vr.name)
+			if p != "" {
+				v("no-panic", "panic/"+vr.name+"/read/"+panicSite(p), fmt.Sprintf("reading the session after asset fault %s panics: %s", vr.name, clip(p, 2000)))
+				return
+			}
+			if rerr != nil {
+				if vr.impossible {
+					v("impossible-fails-session", "go-error/"+vr.name+"/read", fmt.Sprintf("after asset fault %s the session cannot even be read: %v (expected: a session that ends as failed when resumed)", vr.name, rerr))
+					return
+				}
+				w.probe("c10_variant_unreadable_session")
+				break
+			}
+			fo, ok := w.tryResume(c, s2, sax, w.forkSpec(typ))
+			if !ok {
+				continue
+			}
+			if fo.o.Panic != "" {
+				v("no-panic", "panic/"+vr.name+"/"+typ+"/"+panicSite(fo.o.Panic), fmt.Sprintf("resume %s after asset fault %s panics: %s", typ, vr.name, clip(fo.o.Panic, 2000)))
+				return
+			}
+			if !vr.impossible {
+				continue
+			}
+			if fo.err != nil {
+				v("impossible-fails-session", fmt.Sprintf("go-error/%s/%s", vr.name, typ), fmt.Sprintf("resume %s after asset fault %s returned the Go error %q instead of ending the session as failed", typ, vr.name, fo.err))
+				return
+			}
+			if fo.o.Status != "failed" {
+				v("impossible-fails-session", fmt.Sprintf("not-failed/%s/%s/%s", vr.name, typ, fo.o.Status), fmt.Sprintf("resume %s after asset fault %s left the session %s instead of failed", typ, vr.name, fo.o.Status))
+				return
+			}
+			if !strings.Contains(eventTypes(fo.o.Events), "failure") {
+				v("impossible-fails-session", fmt.Sprintf("no-failure-event/%s/%s", vr.name, typ), fmt.Sprintf("resume %s after asset fault %s failed the session without a failure event (events [%s])", typ, vr.name, eventTypes(fo.o.Events)))
+				return
+			}
+			for _, r := range s2.Runs() {
+				if r.Status() == flows.RunStatusActive || r.Status() == flows.RunStatusWaiting {
+					v("impossible-fails-session", fmt.Sprintf("live-run-after-failure/%s/%s", vr.name, typ), fmt.Sprintf("resume %s after asset fault %s failed the session but run %s is still %s", typ, vr.name, r.UUID(), r.Status()))
+					return
+				}
+			}
+			w.probe("c10_impossible_checked")
+		}
+	}
+
+	// --- resume limit reached
+	waits := countWaits(rec.JSON)
+	if waits > 0 && acceptedType != "" {
+		for _, lim := range []int{waits, waits + 1} {
+			w.Seams.Restore(snap)
+			w.Store.TransientErr = 0
+			opt := w.Sc.Opt
+			opt.MaxResumesPerSession = lim
+			eng := w.buildEngine(opt)
+			sa2, err := w.freshSA(sa)
+			if err != nil {
+				return
+			}
+			var s2 flows.Session
+			p := guarded(func() { s2, err = eng.ReadSession(sa2, rec.JSON, assets.IgnoreMissing) })
+			if p != "" || err != nil {
+				return
+			}
+			fo, ok := w.tryResume(c, s2, sa2, w.forkSpec(acceptedType))
+			if !ok {
+				continue
+			}
+			if fo.o.Panic != "" {
+				v("no-panic", "panic/limit/"+panicSite(fo.o.Panic), "resume at the resume limit panics: "+clip(fo.o.Panic, 2000))
+				return
+			}
+			if lim == waits {
+				if fo.err != nil || fo.o.Status != "failed" || !strings.Contains(eventTypes(fo.o.Events), "failure") {
+					v("impossible-fails-session", "resume-limit-not-failing", fmt.Sprintf("a session with %d waits resumed under MaxResumesPerSession=%d: err=%v status=%s events=[%s] (expected failed with a failure event)", waits, lim, fo.err, fo.o.Status, eventTypes(fo.o.Events)))
+					return
+				}
+				w.probe("c10_resume_limit_checked")
+			}
+		}
+	}
+}
+
+func (w *World) forkSpecFixed(typ string) *ResumeSpec {
+	return &ResumeSpec{Type: typ, Text: "follow up", Dial: "busy", DialSecs: 3, Carry: false, MsgSerial: 990000}
+}
+
+// forkEnded: resumes against completed and failed sessions must be rejected and leave
+// them untouched.
+func (w *World) forkEnded(c *ContactState, rec *SessionRec, sa *SA) {
+	snap := w.Seams.Snapshot()
+	defer w.Seams.Restore(snap)
+	before := string(rec.JSON)
+	for _, typ := range resumeTypes {
+		if w.stopped {
+			return
+		}
+		w.Seams.Restore(snap)
+		sa2, err := w.freshSA(sa)
+		if err != nil {
+			return
+		}
+		var s2 flows.Session
+		p := guarded(func() { s2, err = w.Eng.ReadSession(sa2, rec.JSON, assets.IgnoreMissing) })
+		if p != "" || err != nil {
+			return
+		}
+		fo, ok := w.tryResume(c, s2, sa2, w.forkSpec(typ))
+		if !ok {
+			continue
+		}
+		if fo.o.Panic != "" {
+			w.Violate("C10", "no-panic", "C10.panic/ended/"+typ+"/"+panicSite(fo.o.Panic), fmt.Sprintf("resume %s of a %s session panics: %s", typ, rec.Status, clip(fo.o.Panic, 2000)))
+			return
+		}
+		if !fo.rejected {
+			w.Violate("C10", "ended-rejected", fmt.Sprintf("C10.ended-not-rejected/%s/%s", rec.Status, typ), fmt.Sprintf("resume %s of a %s session was not rejected with an engine error (err=%v, status now %s)", typ, rec.Status, fo.err, fo.o.Status))
+			return
+		}
+		if fo.after != before || len(fo.o.Events) > 0 {
+			w.Violate("C10", "rejected-untouched", fmt.Sprintf("C10.ended-mutated/%s/%s", rec.Status, typ), fmt.Sprintf("resume %s of a %s session was rejected (code %d) but the session changed or events were produced: %s", typ, rec.Status, fo.code, firstDiff(before, fo.after)))
+			return
+		}
+		w.probe("c10_ended_session_checked")
+	}
+}
+
+// waitingLocation extracts, from the persisted JSON alone, the flow of the waiting run,
+// the flow of its parent and the node it waits on.
+func waitingLocation(sessionJSON []byte) (flowUUID, parentFlowUUID, nodeUUID string) {
+	var s struct {
+		Runs []struct {
+			UUID string `json:"uuid"`
+			Flow struct {
+				UUID string `json:"uuid"`
+			} `json:"flow"`
+			Status     string `json:"status"`
+			ParentUUID string `json:"parent_uuid"`
+			Path       []struct {
+				NodeUUID string `json:"node_uuid"`
+			} `json:"path"`
+		} `json:"runs"`
+	}
+	json.Unmarshal(sessionJSON, &s)
+	flowOf := map[string]string{}
+	for _, r := range s.Runs {
+		flowOf[r.UUID] = r.Flow.UUID
+	}
+	for _, r := range s.Runs {
+		if r.Status == "waiting" {
+			flowUUID = r.Flow.UUID
+			parentFlowUUID = flowOf[r.ParentUUID]
+			if len(r.Path) > 0 {
+				nodeUUID = r.Path[len(r.Path)-1].NodeUUID
+			}
+		}
+	}
+	return
+}
+
+var _ = jsonx.Marshal
